@@ -292,6 +292,73 @@ func runC07(c *Ctx) {
 		}
 	}
 
+	// ---------------------------------------------------------------- C07.5
+	c.Rule("C07.5", "a multi-segment variable must produce exactly as many segments as its template has", 1)
+	enc := p.MustFunc("httpEncodePathValues")
+	nSeg := 0
+	var ops []string
+	ForEachInstr(enc, func(in ssa.Instruction) {
+		b, ok := in.(*ssa.BinOp)
+		if !ok {
+			return
+		}
+		switch b.Op {
+		case token.EQL, token.NEQ, token.LSS, token.GTR, token.LEQ, token.GEQ:
+		default:
+			return
+		}
+		isLenVals := func(v ssa.Value) bool {
+			call, ok := v.(*ssa.Call)
+			if !ok || CalleeName(call) != "builtin len" {
+				return false
+			}
+			for _, l := range Origins(call.Call.Args[0]) {
+				if l.Kind == "call" {
+					for _, cal := range p.CalleesAt(l.Call) {
+						if FuncName(cal) == "httpSplitVar" {
+							return true
+						}
+					}
+				}
+			}
+			return false
+		}
+		isSize := func(v ssa.Value) bool {
+			for _, l := range Origins(v) {
+				if l.Kind == "call" {
+					for _, cal := range p.CalleesAt(l.Call) {
+						if FuncName(cal) == "(routeTargetVar).size" {
+							return true
+						}
+					}
+				}
+			}
+			return false
+		}
+		if isLenVals(b.X) && isSize(b.Y) || isLenVals(b.Y) && isSize(b.X) {
+			nSeg++
+			ops = append(ops, b.Op.String())
+		}
+	})
+	okSeg := nSeg > 0
+	hasL, hasG := false, false
+	for _, o := range ops {
+		switch o {
+		case "<", "<=":
+			hasL = true
+		case ">", ">=":
+			hasG = true
+		}
+	}
+	for _, o := range ops {
+		if o != "==" && o != "!=" && !(hasL && hasG) {
+			okSeg = false
+		}
+	}
+	c.Check(okSeg, "C07.5", FuncName(enc), "segment-count-exact", enc.Pos(),
+		"the number of segments generated for a fixed-size variable is compared for equality with the template's segment count",
+		"the generated segment count of a multi-segment variable is not required to EQUAL the template's count (comparisons found: "+joinStr(ops)+"): a value with extra segments spills into the following template segments and re-parses to a different message")
+
 	// ---------------------------------------------------------------- C07.4
 	c.Rule("C07.4", "the needs-preparation predicate consults every input source the preparer consumes", 3)
 	needs := p.MethodOf(rcp, "requestNeedsPrep")
